@@ -162,8 +162,8 @@ class Context:
             if r.get("suppressed"):
                 for sig in r["suppressed"]:
                     self.known_seen.setdefault(sig, r.get("detail", ""))
-                return self.add(Obligation(name, "inconclusive", engine,
-                                           "counterexample reduces to known findings only: " + ",".join(r["suppressed"]),
+                return self.add(Obligation(name, "known", engine,
+                                           "counterexample reduces to recorded known findings only: " + ",".join(r["suppressed"]),
                                            solver_s, paths, sample))
             return self.add(Obligation(name, "inconclusive", engine,
                                        "counterexample did NOT replay on the real code (encoding/stub problem): "
